@@ -429,7 +429,19 @@ pub fn explore(api: &Api, ts: &[Triple], seed: u64, cx: &mut Cx, mode: Mode) {
             }
             (Err(e), true) => {
                 cx.outcome("REJECTED-MATCHED");
-                honest_fail(cx, mode, &format!("rejects-matched/{}", tr.fam), format!("login whose parties agree on the effective identities, context and credential id fails: {:?} ({})", e, tr.describe()));
+                // the property itself defines "absent context = empty string" and "absent identity = that party's
+                // public key": a matched login that fails only because the parties SPELL the same value differently
+                // breaks that clause (C05's verdict); one that fails with identical spelling everywhere is an honest
+                // failure (C01's verdict, a precondition here)
+                let mut sp = vec![];
+                if tr.s_ctx != tr.c_ctx { sp.push("ctx") }
+                if tr.r_idu != tr.s_idu || tr.s_idu != tr.c_idu { sp.push("idu") }
+                if tr.r_ids != tr.s_ids || tr.s_ids != tr.c_ids { sp.push("ids") }
+                if !sp.is_empty() && mode == Mode::Own {
+                    cx.violate(&format!("rejects-equivalent-spelling/{}/{}", sp.join("+"), tr.fam), format!("login fails although the parties use the same effective values and differ only in how {} is spelled (absent vs the empty string / the public key): {:?} ({})", sp.join("+"), e, tr.describe()));
+                } else {
+                    honest_fail(cx, mode, &format!("rejects-matched/{}", tr.fam), format!("login whose parties agree on the effective identities, context and credential id fails: {:?} ({})", e, tr.describe()));
+                }
             }
         }
     }
